@@ -215,15 +215,10 @@ ASSUMPTIONS = {
 }
 
 
-def run_control(res, prop, spec, tier):
-    """E4 positive control: the same rules must FIRE on a copy of /repo's current tree with a known violating change
-    applied (controls/<prop>.diff).  A control whose patch no longer applies is skipped (recorded), one that applies
-    but is not reported fails the check closed."""
+def _apply_and_analyse(prop, spec, patch):
+    """copy /repo's current source, apply `patch`, extract, run the property's rules: returns
+    ('skipped', reason) | ('ran', [violations], facts_key)"""
     import shutil, subprocess, tempfile
-    patch = os.path.join(VERIF, 'controls', prop + '.diff')
-    if not os.path.exists(patch):
-        res.extra['control'] = 'none'
-        return
     tmp = tempfile.mkdtemp(prefix='control-')
     try:
         for item in ('src', 'Cargo.toml', 'Cargo.lock', 'README.md'):
@@ -234,25 +229,55 @@ def run_control(res, prop, spec, tier):
                 shutil.copy(src, os.path.join(tmp, item))
         r = subprocess.run(['patch', '-p1', '--no-backup-if-mismatch', '-s', '-i', patch], cwd=tmp, stdout=subprocess.PIPE, stderr=subprocess.STDOUT, text=True)
         if r.returncode != 0:
-            res.extra['control'] = 'skipped: control patch does not apply to the current tree'
-            return
+            return ('skipped', 'patch does not apply to the current tree')
         try:
             cfacts, ckey, secs, cached = extract('dev', use_cache=True, repo=tmp)
         except FactsError as e:
-            res.extra['control'] = 'skipped: control tree does not build (%s)' % str(e)[:200]
-            return
+            return ('skipped', 'patched tree does not build (%s)' % str(e)[:160])
         cres = Result(prop)
         try:
             spec['fn'](cres, cfacts, 'quick')
         except (InterpError, FactsError) as e:
             cres.ob('ANALYSIS', 'control', False, str(e))
-        fired = [o for o in cres.violations()]
-        res.extra['control'] = {'patch': 'controls/%s.diff' % prop, 'violations_reported_on_control': len(fired),
-                                'first': fired[0].to_json() if fired else None, 'facts_key': ckey}
-        res.ob('CONTROL', 'rules fire on the known-bad twin (controls/%s.diff)' % prop, bool(fired),
-               'the positive control was NOT reported: the rule set for %s has gone blind' % prop, key='CONTROL:' + prop, nontrivial=False)
+        return ('ran', cres.violations(), ckey)
     finally:
         shutil.rmtree(tmp, ignore_errors=True)
+
+
+def run_control(res, prop, spec, tier):
+    """E4 positive control: the same rules must FIRE on a copy of /repo's current tree with a known violating change
+    applied (controls/<prop>.diff).  A control whose patch no longer applies is skipped (recorded), one that applies
+    but is not reported fails the check closed.  The thorough tier additionally replays every stored seeded change of
+    this property (seeded/<prop>_k/patch.diff) the same way."""
+    patch = os.path.join(VERIF, 'controls', prop + '.diff')
+    if not os.path.exists(patch):
+        res.extra['control'] = 'none'
+        return
+    out = _apply_and_analyse(prop, spec, patch)
+    if out[0] == 'skipped':
+        res.extra['control'] = 'skipped: ' + out[1]
+    else:
+        fired = out[1]
+        res.extra['control'] = {'patch': 'controls/%s.diff' % prop, 'violations_reported_on_control': len(fired),
+                                'first': fired[0].to_json() if fired else None, 'facts_key': out[2]}
+        res.ob('CONTROL', 'rules fire on the known-bad twin (controls/%s.diff)' % prop, bool(fired),
+               'the positive control was NOT reported: the rule set for %s has gone blind' % prop, key='CONTROL:' + prop, nontrivial=False)
+    if tier != 'thorough':
+        return
+    replay = {}
+    sd = os.path.join(VERIF, 'seeded')
+    for name in sorted(os.listdir(sd)) if os.path.isdir(sd) else []:
+        if not name.startswith(prop + '_'):
+            continue
+        out = _apply_and_analyse(prop, spec, os.path.join(sd, name, 'patch.diff'))
+        if out[0] == 'skipped':
+            replay[name] = 'skipped: ' + out[1]
+            continue
+        fired = out[1]
+        replay[name] = {'violations': len(fired), 'first': fired[0].to_json() if fired else None}
+        res.ob('CONTROL', 'seeded change %s is reported' % name, bool(fired), 'a confirmed violating change of %s is no longer reported' % prop,
+               key='CONTROL:%s' % name, nontrivial=False)
+    res.extra['seeded_replay'] = replay
 
 
 def main(argv):
